@@ -1449,12 +1449,36 @@ def cancel_stage_registry():
     return reg
 
 
+def _cancel_stage_event(ctx):
+    """C12 (the log reproduces the stored status of every stage that went through the regular cancel step): a run that commits the
+    stage CANCELED records one stage-canceled event for it (when a recorder is configured) -- whatever the stage's status was
+    before, NOT_STARTED included; a run that commits nothing records none."""
+    I = ctx.I
+    if ctx.exc is not None:
+        return []
+    h = ctx.extra["handler"]
+    rec_absent = I.st.objs[h.oid].fields["_event_recorder"].isnone
+    evs = [e for e in ctx.st.effects if e.kind == "event" and e.data["kind"] == "record_stage_canceled"]
+    canc = [(e, g) for e, g in P.stores(ctx) if True]
+    if not canc:
+        return [("no-event-without-the-status-commit", z3.BoolVal(not evs))]
+    goals = []
+    for n, (e, g) in enumerate(canc):
+        stt = e.data["snap"]["status"].t
+        goals.append((f"store{n}.canceled-event-recorded", z3.Implies(z3.And(g, stt == status(I, "CANCELED"), z3.Not(rec_absent)), z3.BoolVal(len(evs) == 1))))
+    for e in evs:
+        ent = e.data.get("entity")
+        goals.append(("event-is-about-the-stored-stage", z3.BoolVal(isinstance(ent, SObj) and any(isinstance(c.data["snap"]["obj"], SObj) and c.data["snap"]["obj"].oid == ent.oid for c, _ in canc))))
+    return goals
+
+
 def cancel_stage():
     complete = ("SUCCEEDED", "FAILED_CONTINUE", "SKIPPED", "TERMINAL", "CANCELED", "STOPPED")
     obls = [
         Obl("C02/guard/CancelStage", _stage_guard(complete, negate=True), when="any"),
         Obl("C10/absorb/CancelStage", _stage_guard(complete, negate=True), when="any"),
         Obl("C17/cancel-stage", _cancel_stage_post, when="any"),
+        Obl("C12/T4/CancelStage", _cancel_stage_event, when="any"),
         Obl("C01/T1/CancelStage", P.t1_processed_with_effects(), when="any"),
         Obl("C02/T1/CancelStage", P.t1_processed_with_effects(), when="any"),
         Obl("C09/T1/CancelStage", P.t1_processed_with_effects(), when="any"),
